@@ -308,7 +308,24 @@ def _gen_nested(rng, threads):
             "thread": t, "call": c, "rep": rng.choice([1, 1, 2, 3]), "gap": rng.choice([1, 1, 2, 5])}
 
 
+def gen_sweep(rng: random.Random, tier: str) -> dict:
+    """One pair of small calls, EVERY single-pre-emption schedule of thread 0's first-use and write windows (all of
+    them in the thorough tier, capped in the quick tier) plus evenly spaced positions elsewhere."""
+    cfg = docgen.config(rng) if rng.random() < 0.5 else dict(BASE_CFG)
+    instr = rng.random() < 0.5
+    threads = [[_gen_call(rng, True)], [_gen_call(rng, True)]]
+    start = _gen_start(rng)
+    if start[0] == "aged":
+        start = ["fresh"]
+    return {"cfg": cfg, "start": start, "threads": threads, "nested": None,
+            "gran": "INSTRUCTION" if instr else "LINE", "switches": [], "sched": "SWEEP",
+            "cold_text_cache": rng.random() < 0.3,
+            "sweep": {"cap": 120 if tier == "quick" else 6000, "extra": 40 if tier == "quick" else 200}}
+
+
 def gen(rng: random.Random, tier: str) -> dict:
+    if rng.random() < (0.004 if tier == "quick" else 0.004):
+        return gen_sweep(rng, tier)
     cfg = docgen.config(rng) if rng.random() < 0.6 else dict(BASE_CFG)
     nt = 1 if rng.random() < 0.12 else (2 if (tier == "quick" or rng.random() < 0.6) else 3)
     instr = rng.random() < (0.25 if tier == "quick" else 0.5)
@@ -477,7 +494,8 @@ def execute(rec: dict, res: RunResult) -> None:
     # ---- 1. solo outcomes (each call alone on a fresh, identically configured instance in the same start state)
     solo, solo_steps, nest_counts = [], [], {}
     fu_steps: list[int] = []
-    need_w = n > 1 and any(("ws" in s[0] or "wc" in s[0] or "tw" in s[0]) for s in rec["switches"])
+    sweep = rec.get("sweep") if rec.get("sched") == "SWEEP" else None
+    need_w = n > 1 and (sweep is not None or any(("ws" in s[0] or "wc" in s[0] or "tw" in s[0]) for s in rec["switches"]))
     need_fu = need_w or any("fu" in s[0] for s in rec["switches"])
     w0: list[int] = []            # steps of thread 0's first call at which shared state changed
     w1: list[int] = []            # the same for thread 1's first call
@@ -581,6 +599,10 @@ def execute(rec: dict, res: RunResult) -> None:
                + 50_000
                for t in range(n)]
     res.events.append(["solo_steps", solo_steps, "fu", len(fu_steps), "arm_at", arm_at])
+
+    if sweep is not None:
+        _run_sweep(rec, res, sweep, solo, solo_steps, fu_steps, w0, budgets, cold, t0_steps)
+        return
 
     # ---- 2. the concurrent / nested phase on ONE shared instance
     md = build_shared(rec)
@@ -690,6 +712,64 @@ def execute(rec: dict, res: RunResult) -> None:
                 return
 
 
+def _run_sweep(rec, res, sweep, solo, solo_steps, fu_steps, w0, budgets, cold, t0_steps):
+    threads = rec["threads"]
+    pos = set(fu_steps)
+    for w in w0:
+        pos.update(x for x in (w, w + 1, w + 2) if x >= 1)
+    windows = len(pos)
+    k = sweep["extra"]
+    pos.update(1 + int(j * max(t0_steps - 1, 1) / k) for j in range(k))
+    pos = sorted(p for p in pos if 1 <= p <= t0_steps)
+    total = len(pos)
+    if total > sweep["cap"]:
+        step = total / sweep["cap"]
+        pos = [pos[int(j * step)] for j in range(sweep["cap"])]
+    res.events.append(["hash_order_dependent_schedule"])      # positions come from first-use / write windows
+    res.count("sweep_runs")
+    res.count("sweep_positions_total", total)
+    res.count("sweep_positions_in_first_use_or_write_windows", windows)
+    res.count("sweep_positions_executed", len(pos))
+    res.count(f"runs_{rec['gran']}")
+    res.nontrivial = True
+    site = rec["start"][0]
+    for at in pos:
+        md = build_shared(rec)
+        if cold:
+            shared_state.reset_module_state()
+        results = [[None], [None]]
+
+        def body(tid, md=md, results=results):
+            m, d, ek = threads[tid][0]
+            sim.in_call[tid] = True
+            try:
+                results[tid][0] = call_outcome(md, m, d, ek)
+            finally:
+                sim.in_call[tid] = False
+        sim = sched.Sim(2, [(at, 0)], budgets)
+        sim.run([body, body])
+        res.steps += sim.gstep
+        for f in sim.fired:
+            res.reach("preemption_sites", ("L|" if rec["gran"] == "LINE" else "I|") + f[3])
+            res.reach("distinct_interleavings", f"{f[3]}|{f[1]}>{f[2]}")
+        res.count("preemptions_fired", len(sim.fired))
+        res.count("preemptions_fired_SWEEP", len(sim.fired))
+        for t in (0, 1):
+            got, exp = results[t][0], solo[t][0]
+            if got != exp:
+                cls = "NONTERMINATION" if got and got[0] == "nonterm" else \
+                    "DEADLOCK" if got and got[0] == "deadlock" else \
+                    "EXCEPTION" if (got and got[0] == "exc" and exp[0] != "exc") else "RESULT_DIFF"
+                res.fail(cls, f"sweep: thread 0 pre-empted at its step {at} ({sim.fired[:1]}): thread {t} "
+                              f"{threads[t][0][0]}({threads[t][0][1]!r}) got {str(got)[:300]} but alone it returns "
+                              f"{str(exp)[:300]}", site)
+                res.violation["at"] = at
+                res.events.append(["sweep", len(pos), at])
+                return
+    res.events.append(["sweep", len(pos), None])
+    res.events.append(["results", [solo[0][0], solo[1][0]]])
+
+
 class C13(Engine):
     prop = "C13"
     level = "exploration"
@@ -717,7 +797,7 @@ class C13(Engine):
     expected_probes = ["aged_start_runs", "solo_calls_that_write_shared_state", "runs_with_write_directed_preemption",
                        "preemption_in_first_use_window", "overlapped_runs", "nested_reentries_fired", "nested_from_link_hook",
                        "preemptions_fired_K1", "preemptions_fired_K2", "preemptions_fired_K3", "preemptions_fired_K4",
-                       "preemptions_fired_K5",
+                       "preemptions_fired_K5", "sweep_runs",
                        "runs_LINE", "runs_INSTRUCTION"]
     default_workers = 16
 
@@ -767,6 +847,12 @@ class C13(Engine):
         return res
 
     def shrink_steps(self, rec):
+        if rec.get("sched") == "SWEEP":
+            res = self.execute(rec)
+            if res.violation and "at" in res.violation:
+                yield {**{k: v for k, v in rec.items() if k != "sweep"}, "sched": "K1",
+                       "switches": [[{"abs": res.violation["at"]}, 0]]}
+            return
         # resolve the switch list to absolute steps first (uses the events of an execution)
         if any("abs" not in s[0] for s in rec["switches"]) or (rec.get("nested") and "abs" not in rec["nested"]["inv"]) \
                 or (rec["start"][0] == "aged" and not isinstance(rec["start"][1], int)):
